@@ -2,13 +2,15 @@
 
 Implementation: the real `eups.lock.takeLocks` / `giveLocks` (and the `atexit` handler takeLocks registers) run by
 real processes whose file-system calls are released one at a time by a scheduler (harness/lib_lockgate.py).
-Model: lean/EupsModel/Model/Lock.lean through the driver handler "c09" (`run`: same schedule, per step the call and
-its result class; `explore`: the reachable state graph of a configuration and a set of schedules taking every
-transition).
+Model: lean/EupsModel/Model/LockR.lean, LockPathR.lean (the repaired protocol: lock file first, then the look at the
+others; withdrawal; tolerant rmdir; no exit without the lock) through the driver handler "c09" (`run`/`runpath`: same
+schedule, per step the call and its result class; `explore`: the reachable state graph of a configuration and a set of
+schedules taking every transition).
 Oracle (ii), from the real run alone: at no scheduling point are two unrelated processes in their command body with
-one of them holding an exclusive lock; a process that has left through the "trepidation" exit counts as running
-unlocked; when every process has finished nothing is left in the stack; on schedules whose acquisition and release
-phases do not overlap, readers share, a free lock is granted and a child re-enters the lock of its parent.
+one of them holding an exclusive lock (no finding class is left: any such point is a violation); a process in its body
+without a lock on a stack of its path counts as running unlocked; when every process has finished nothing is left in
+the stack; no release raises; on schedules whose acquisition and release phases do not overlap, readers share, a free
+lock is granted, a child re-enters the lock of its parent and an incompatible request is refused.
 """
 import json
 import os
@@ -32,17 +34,24 @@ TRUSTED = ["the step gate serialises the file-system calls of the lockers: one c
            "directory listings are returned newest lock file first (the gate sorts them; POSIX leaves the order open) — "
            "matters only when the second 'exclusive*' listing holds several entries",
            "process identity and environment inheritance (EUPS_LOCK_PID is set by the harness to the parent's real pid)"]
-ASSUMPTIONS = ["one stack (one lock directory) per command; locking enabled (hooks.config.site.lockDirectoryBase is the "
+ASSUMPTIONS = ["locking enabled (hooks.config.site.lockDirectoryBase is the "
                "default '__UPS_DB__' or an absolute path; with None or --nolocks takeLocks makes no call at all, checked separately)",
-               "a process takes the lock once; signals (the SIGINT/SIGTERM handler takeLocks installs) are not delivered",
+               "a process takes the lock once; signals (SIGINT/SIGTERM, for the handler takeLocks installs) are delivered to command bodies only",
                "stack directory writable (the EACCES branch of takeLocks is not exercised)",
                "related = one process started with the other's pid in EUPS_LOCK_PID; two children of one holder are unrelated",
-               "EUPS_LOCK_PID names a process that itself started without the variable (takeLocks never overwrites it, so every "
-               "descendant inherits the pid of the first locker); the theorems hold for arbitrary maps, the race classification "
-               "(D12a/b/c explain every violation) was explored for such flat maps only"]
+               "the elements of a command's path are distinct (Eups.setEupsPath removes duplicates)"]
+
+# what the models mirror (fingerprints: a change of any of these escalates the quick tier's case budget)
+MIRRORS = [("python/eups/lock.py", "*"), ("python/eups/setupcmd.py", "*"),
+           ("python/eups/cmd.py", "EupsCmd.execute"), ("python/eups/cmd.py", "EupsCmd.run"),
+           ("python/eups/cmd.py", "AdminCmd.execute"), ("python/eups/cmd.py", "DistribCmd.execute"),
+           ("python/eups/cmd.py", "EupsCmd.createEups"), ("python/eups/cmd.py", "EupsCmd.addOptions"),
+           ("python/eups/cmd.py", "EupsCmd.__init__"), ("python/eups/cmd.py", "register"),
+           ("python/eups/cmd.py", "makeEupsCmd"), ("python/eups/Eups.py", "Eups.setEupsPath"),
+           ("python/eups/utils.py", "getUserName")]
 
 CORPUS = os.path.join(common.VERIF, "corpus", "C09")
-WORKERS = 6
+WORKERS = 4
 
 
 def P(kind, lp=None, tries=0, explicit=True, user=None):
@@ -83,7 +92,7 @@ def run_impl(case):
 
 def impl_view(r):
     """the observables compared with the model"""
-    return {"trace": r["trace"], "outcomes": r["outcomes"], "residue": r["residue"]}
+    return {"trace": drop_refused(r)[1], "outcomes": r["outcomes"], "residue": r["residue"]}
 
 
 # ---- model --------------------------------------------------------------------------------------
@@ -92,16 +101,45 @@ def is_path_case(case):
     return case.get("ndirs", 1) > 1 or any(p.get("argv") is not None for p in case["procs"])
 
 
+def eff_path(p):
+    """the stacks the locker can lock: a stack it cannot write to (`ro`) is skipped by takeLocks after one refused mkdir"""
+    return [d for d in p.get("path", [0]) if d not in (p.get("ro") or [])]
+
+
+def drop_refused(r):
+    """Read-only stacks are tied to the model by reduction: the real run on a path with such stacks must be the model's
+    run on the path without them, plus one refused `mkdir` (EACCES) per skipped stack (an exclusive request: followed by the listing of that — missing —
+    lock directory, which it makes before it looks at the error).  Returns (executed, trace) without
+    those steps."""
+    drop, after = set(), {}
+    for k, t in enumerate(r["trace"]):
+        if t[1].startswith("mkdir") and t[2] == "EACCES":
+            drop.add(k)
+            after[t[0]] = "scan_all" + t[1][5:]      # an exclusive request lists the lockers before it looks at the errno
+        elif after.get(t[0]) == t[1] and t[2] == "[]":
+            drop.add(k)
+            after.pop(t[0])
+        elif t[1] != "-":
+            after.pop(t[0], None)
+    if not drop or len(r["trace"]) != len(r["executed"]):
+        return r["executed"], r["trace"]
+    keep = [k for k in range(len(r["trace"])) if k not in drop]
+    return [r["executed"][k] for k in keep], [r["trace"][k] for k in keep]
+
+
 def model_req(case, executed):
     if is_path_case(case):
         # kind "N" (no lock requested: lockType None, --nolocks, -h): a command with an empty path
         return {"m": "c09", "op": "runpath", "sched": executed, "ndirs": case.get("ndirs", 1),
                 "procs": [{"kind": (p["kind"] if p["kind"] != "N" else "S"), "lp": p.get("lp"), "tries": p.get("tries", 0),
-                           "path": (p.get("path", [0]) if p["kind"] != "N" else []),
+                           "path": (eff_path(p) if p["kind"] != "N" else []),
                            "explicit": p.get("explicit", True), "user": p.get("user")} for p in case["procs"]]}
-    return {"m": "c09", "op": "run", "sched": executed,
-            "procs": [{"kind": p["kind"], "lp": p.get("lp"), "tries": p.get("tries", 0), "user": p.get("user")}
-                      for p in case["procs"]]}
+    req = {"m": "c09", "op": "run", "sched": executed,
+           "procs": [{"kind": p["kind"], "lp": p.get("lp"), "tries": p.get("tries", 0), "user": p.get("user")}
+                     for p in case["procs"]]}
+    if case.get("stale"):
+        req["stale"] = case["stale"]
+    return req
 
 
 def model_view(ans):
@@ -261,27 +299,62 @@ def cmd_cases(rng, nrandom):
     return cases
 
 
+def cmdline_req(sp, base):
+    """the model's reading of one command line (Model/LockCmd.lean): command word(s), -h, --nolocks / setup -N, locking
+    enabled, $EUPS_PATH, -Z, -z"""
+    argv = sp["argv"]
+    w = cmd_words(argv)
+    z = dbz = None
+    for j, a in enumerate(argv[:-1]):
+        if a in ("-Z", "--database", "--with-eups"):
+            z = [int(x[2:]) for x in argv[j + 1].split(":")]
+        elif a in ("-z", "--select-db"):
+            dbz = int(argv[j + 1][5:])
+    name = " ".join(w[:2]) if w[0] in ("admin", "distrib") and len(w) > 1 else w[0]
+    return {"m": "c09", "op": "cmdline", "cmd": name, "help": "-h" in w or "--help" in w,
+            "nolocks": "--nolocks" in w or (w[0] == "setup" and "-N" in w), "enabled": base != "none",
+            "env_path": list(sp.get("env_path", sp.get("path", [0]))), "Z": z, "z": dbz}
+
+
+def cmd_table_check(ctx):
+    """The registered lock type of EVERY command of the real command table (eups.cmd._cmdLookup, enumerated in a child)
+    against the model's table (Model/LockCmd.lean): same commands, same lock types; and the property's sentence on the
+    real table: a command the harness knows to update a stack is registered exclusive."""
+    def real_table():
+        common.import_eups()
+        import eups.cmd
+        import eups.lock as lock
+        return {k: {lock.LOCK_EX: "E", lock.LOCK_SH: "S", None: None}.get(v[1], "?") for k, v in eups.cmd._cmdLookup.items()}
+    res = common.in_child(real_table)
+    if res[0] != "ok":
+        raise common.InfraError("cannot read the command table: %r" % (res,))
+    real = res[1]
+    model = {e["name"]: e for e in ctx.lean.ask({"m": "c09", "op": "cmdtable"})}
+    names = sorted(set(real) | (set(model) - {"setup"}))
+    updaters = {"declare", "undeclare", "remove", "admin buildCache", "admin clearCache", "admin clearServerCache",
+                "distrib clean", "distrib create", "distrib declare", "distrib install"}
+    for nm in names:
+        iv = real.get(nm, "not registered")
+        mv = model[nm]["lock"] if nm in model else "not in the model"
+        ctx.case(key={"cmdtable": nm}, nontrivial=True, sample=None)
+        ctx.hist("src=cmdtable")
+        if iv != mv:
+            ctx.disagree("cmd_lock_table", {"command": nm}, iv, mv, note="registered lock type of '%s'" % nm)
+        if nm in updaters and iv != "E":
+            ctx.fail("updater_registered_exclusive", {"command": nm}, iv, mv,
+                     note="'%s' updates a stack and is registered with lock type %r" % (nm, iv), finding=None)
+        if nm in model and model[nm]["updates"] != (nm in updaters):
+            ctx.disagree("cmd_updates_table", {"command": nm}, nm in updaters, model[nm]["updates"],
+                         note="harness and model differ on whether '%s' updates a stack" % nm)
+    ctx.hist("cmdtable_commands", len(names))
+    if len(names) < 30:
+        raise common.InfraError("command table has only %d entries" % len(names))
+
+
 def residue_class(case, r):
-    """D12f iff every lock file left behind belongs to a process with several stacks in its path whose giveLocks
-    (or the giving-up inside a failed takeLocks) raised, or which left through the trepidation exit and releases
-    only at exit (the exit handler is not registered on that path)."""
-    if case.get("ndirs", 1) < 2:
-        return None
-    files = [f for l in r["residue"] for f in (l if isinstance(l, list) else [l]) if f != G.LOCKDIR]
-    if not files:
-        return None
-    for f in files:
-        if not f[1:].isdigit():
-            return None
-        i = int(f[1:])
-        sp = case["procs"][i]
-        out = r["outcomes"][i]
-        held = (r.get("held") or [None] * len(case["procs"]))[i]
-        raised = out.startswith("failed_release:") or (out.startswith("failed:") and out != "failed:RuntimeError")
-        trep = held is not None and len(held) < len(sp.get("path", [0])) and not sp.get("explicit", True)
-        if len(sp.get("path", [0])) < 2 or not (raised or trep):
-            return None
-    return "D12f"
+    """No open finding about residue is left (D12f is repaired: giveLocks does not raise on the benign races and takeLocks
+    has no exit that skips the exit handler): anything left behind is a violation."""
+    return None
 
 
 def oracle(case, r):
@@ -298,13 +371,57 @@ def oracle(case, r):
         seen.add(key)
         a, b = v["pair"]
         what = "exclusive holder %d and process %d (%s) in their command bodies together after step %d" % (
-            a, b, "unlocked" if v["class"] == "D12c" else "holding", v["step"])
+            a, b, "unlocked" if v.get("unlocked") else "holding", v["step"])
         yield ("mutex", v["class"], what)
-    if all(o in ("done",) or o.startswith("failed") for o in r["outcomes"]) and r["residue"]:
+    ghosts = [(k, int(g)) for k, g in (case.get("stale") or [])]
+    left = [x for x in r["residue"] if x not in ["%s%d" % (k, g) for k, g in ghosts]] if ghosts else r["residue"]
+    if ghosts and left == [G.LOCKDIR] and len(left) < len(r["residue"]):
+        left = []       # the lock of a killed process was never released: it, and its directory, are not residue of a release
+    dead = r.get("sigkilled") or []
+    if dead:
+        # a locker that was killed outright released nothing: its own lock file, and the directory, are not residue of a release
+        left = [x for x in left if x not in ["%s%d" % (case["procs"][i]["kind"], i) for i in dead]]
+        if left == [G.LOCKDIR]:
+            left = []
+    if all(o in ("done", "killed") or o.startswith("failed") for o in r["outcomes"]) and left:
         yield ("no_residue", residue_class(case, r), "every process has finished and %r is left" % (r["residue"],))
+    clears = [t for t, x in enumerate(r["trace"]) if x[1] == "clearLocks"]
+    if clears:
+        # after `eups admin clearLocks` the lock is free: a request that starts after it, alone, is granted
+        t0 = clears[-1]
+        rest = [x for x in r["trace"][t0 + 1:] if x[0] >= 0 and x[1] not in ("-", "signal", "sigkill")]
+        if rest and rest[0][1] == "mkdir":
+            p = rest[0][0]
+            mine = [x[1] for x in rest if x[0] == p]
+            alone = all(x[0] == p for x in rest[:len(mine)])        # its whole request ran before anybody else moved
+            fresh = not any(x[0] == p and x[1] != "-" for x in r["trace"][:t0])
+            if fresh and alone and "work" not in mine and r["outcomes"][p] == "failed:RuntimeError":
+                yield ("clearLocks_frees", None, "process %d asked for the lock right after clearLocks, alone, and was refused: %r" % (p, mine[:6]))
+    if ghosts:
+        # a stale lock blocks: before the administrator clears it, nobody incompatible with it (and not its owner's child)
+        # gets into its command body
+        for t in r["trace"]:
+            if t[1] == "clearLocks":
+                break
+            if t[1] == "work":
+                sp = case["procs"][t[0]]
+                for k, g in ghosts:
+                    if sp.get("lp") != g and (k == "E" or sp["kind"] == "E"):
+                        yield ("stale_lock_blocks", None, "process %d (%s) was in its command body beside the stale %s lock of %d" % (
+                            t[0], sp["kind"], k, g))
     for o in r["outcomes"]:
         if o.startswith("crash") or o.startswith("pending") or o == "timeout":
             yield ("terminates", None, "process ended as %s" % o)
+        if o.startswith("failed_release"):
+            yield ("release_never_fails", None, "giveLocks raised: %s" % o)
+    for i in r.get("resumed") or []:
+        yield ("signal_ends_command", None, "process %d caught a signal in its command body, gave its locks up and carried on" % i)
+    # takeLocks returned (the body ran): with a lock on every stack of the path, of the kind requested
+    for i, sp in enumerate(case["procs"]):
+        held = (r.get("held") or [None] * n)[i]
+        if sp.get("argv") is None and held is not None and sp["kind"] != "N" and sorted(held) != sorted(eff_path(sp)):
+            yield ("body_runs_locked", None, "takeLocks of process %d returned locks on stacks %r, its path is %r (read-only: %r)" % (
+                i, held, sp.get("path", [0]), sp.get("ro") or []))
     # real command lines: the lock a command holds in its body is the one its kind demands, on every stack of its path
     for i, sp in enumerate(case["procs"]):
         if sp.get("argv") is None:
@@ -339,7 +456,9 @@ def oracle(case, r):
                     holders.remove(i)
                 continue
             steps = r["trace"][t0:t1]
-            got = any(s[1] == "create" and s[2] in ("ok", "EEXIST") for s in steps)
+            # granted: the lock file was put in place and not withdrawn again in this phase
+            got = any(s[1] == "create" and s[2] in ("ok", "EEXIST") for s in steps) and \
+                  [s[1] for s in steps if s[1] in ("create", "isdir")][-1] == "create"
             others = [h for h in holders if h != i]
             unrelated = [h for h in others if not G.related(procs, i, h)]
             k = procs[i]["kind"]
@@ -397,8 +516,8 @@ def three_proc_configs():
     return cfgs
 
 
-def explore_cases(ctx, cfgs, tag, limit=None):
-    reqs = [{"m": "c09", "op": "explore", "monitors": False, "max": 400000,
+def explore_cases(ctx, cfgs, tag, limit=None, signals=False):
+    reqs = [{"m": "c09", "op": "explore", "signals": signals, "max": 400000,
              "procs": [{"kind": p["kind"], "lp": p["lp"], "tries": p["tries"]} for p in procs]} for procs in cfgs]
     answers = ctx.lean.ask_many(reqs)
     cases = []
@@ -413,7 +532,10 @@ def explore_cases(ctx, cfgs, tag, limit=None):
         if limit is not None and len(scheds) > limit:
             scheds = ctx.rng.sample(scheds, limit)
         for s in scheds:
-            cases.append({"procs": procs, "sched": s, "src": tag})
+            c = {"procs": procs, "sched": s, "src": tag}
+            if any(x < 0 for x in s):
+                c["signal"] = ctx.rng.choice(["TERM", "INT"])
+            cases.append(c)
     return cases
 
 
@@ -438,7 +560,31 @@ def random_case(rng, n):
     c = {"procs": procs, "sched": sched, "src": "random%d" % n}
     if rng.random() < 0.15:
         c["base"] = "abs"
+    add_signals(rng, c, 0.15)
+    if rng.random() < 0.12:
+        # SIGKILL for one of them at an arbitrary point (mid-takeLocks, in the body, mid-giveLocks): it stops dead
+        sched = list(c["sched"])
+        sched.insert(rng.randint(1, max(1, len(sched) * 2 // 3)), G.EV_KILL + rng.randrange(n))
+        c["sched"] = sched
     return c
+
+
+def add_signals(rng, c, prob):
+    """with probability prob: one or two signals (SIGTERM or SIGINT, the same for the whole case) for random processes at
+    random points of the schedule; a signal is delivered only if the process is in its command body at that point"""
+    if rng.random() >= prob:
+        return
+    n = len(c["procs"])
+    c["signal"] = rng.choice(["TERM", "INT"])
+    sched = list(c["sched"])
+    for _ in range(rng.choice([1, 1, 2])):
+        i = rng.randrange(n)
+        # preferably soon after the process may have reached its body: after its k-th own entry, k around 3..6
+        own = [t for t, x in enumerate(sched) if x == i]
+        k = rng.randint(2, 7)
+        pos = own[k] + 1 if len(own) > k and rng.random() < 0.8 else rng.randint(0, len(sched))
+        sched.insert(pos, -(i + 1))
+    c["sched"] = sched
 
 
 def path_case(rng):
@@ -473,7 +619,66 @@ def path_case(rng):
     c = {"procs": procs, "sched": sched, "ndirs": nd, "src": "path%d" % nd}
     if rng.random() < 0.15:
         c["base"] = "abs"
+    add_signals(rng, c, 0.12)
+    if "signal" not in c and rng.random() < 0.2:      # (not together with signals: the reduction below does not commute with them)
+        # stacks nobody here may write to (a system-wide stack): takeLocks goes on without a lock there and must still
+        # lock the others.  Read-only for every locker alike, so that no lock directory ever exists there (a lock
+        # directory in a stack one cannot write to would make the creation of the lock file fail — outside the model)
+        ros = rng.sample(range(nd), rng.randint(1, nd - 1) if nd > 1 else 1)
+        for pr in procs:
+            if set(pr["path"]) & set(ros):
+                pr["ro"] = sorted(set(pr["path"]) & set(ros))
     return c
+
+
+def signal_case(rng):
+    """a holder is interrupted in its command body while others are in the middle of their requests"""
+    n = rng.choice([2, 3, 3])
+    nd = rng.choice([1, 1, 2])
+    procs = []
+    for i in range(n):
+        k = rng.choice("ES") if i else rng.choice("EES")
+        pr = P(k, lp=(0 if (i and rng.random() < 0.2) else None), tries=rng.choice([0, 1, 2]), explicit=rng.random() < 0.7,
+               user=pick_user(rng))
+        if nd > 1:
+            pr["path"] = rng.sample(range(nd), rng.randint(1, nd)) if i else list(range(nd))
+        procs.append(pr)
+    first = 3 * len(procs[0].get("path", [0]))
+    sched = [0] * (first - rng.choice([0, 0, 0, 1]))        # now and then the signal comes one call too early
+    pre = []
+    while n > 1 and len(pre) < rng.randint(0, 10):
+        pre += [rng.randrange(1, n)] * rng.randint(1, 4)     # the others are in the middle of their requests
+    if rng.random() < 0.15:
+        pre.insert(rng.randint(0, len(pre)), 0)               # now and then the body is over when the signal comes
+    rest = []
+    while len(rest) < 12 * n:
+        rest += [rng.randrange(n)] * rng.randint(1, 5)
+    rest = pre + [-1] + rest
+    if rng.random() < 0.3:
+        rest.insert(rng.randint(0, len(rest)), -rng.randint(1, n))
+    c = {"procs": procs, "sched": sched + rest, "src": "signal", "signal": rng.choice(["TERM", "INT"])}
+    if nd > 1:
+        c["ndirs"] = nd
+    return c
+
+
+def admin_case(rng):
+    """a stale lock (file of a killed process), requests against it, `eups admin listLocks`, `eups admin clearLocks` (only
+    while no live process is engaged: it is the administrator's override and spares nobody), requests after it"""
+    gk = rng.choice("ES")
+    procs = [P(rng.choice("ES"), tries=rng.choice([0, 1, 2]), explicit=rng.random() < 0.8, user=pick_user(rng)),
+             P(rng.choice("ES"), tries=rng.choice([0, 1]), user=pick_user(rng))]
+    sched = []
+    if rng.random() < 0.4:
+        procs.append(P(rng.choice("ES"), lp=9, tries=0))        # a child of the dead process re-enters its lock
+        sched += [2] * 12
+    sched = [G.EV_LIST] * rng.choice([0, 1]) + sched + [0] * 26 + [G.EV_LIST] * rng.choice([0, 1])
+    if rng.random() < 0.75:
+        sched += [G.EV_CLEAR, G.EV_LIST]
+    sched += [1, 1, 1, G.EV_LIST] + [1] * 12
+    if rng.random() < 0.3:
+        sched += [G.EV_CLEAR, G.EV_LIST]
+    return {"procs": procs, "stale": [[gk, 9]], "sched": sched, "src": "admin"}
 
 
 def name_cases():
@@ -514,13 +719,80 @@ def phase_case(rng):
 
 # ---- evaluation ---------------------------------------------------------------------------------
 
+def trace_events(trace):
+    """the race-handling paths of the repaired protocol that the real run went through (distribution guard)"""
+    ev = set()
+    last = {}
+    for i, call, res, _v in trace:
+        c = call.split("@")[0]
+        prev = last.get(i)
+        if c == "create" and res == "ENOENT":
+            ev.add("create_found_directory_removed")
+        if c == "rmdir" and res == "ENOTEMPTY":
+            ev.add("rmdir_refused_directory_in_use")
+        if c == "rmdir" and res == "ENOENT":
+            ev.add("rmdir_found_directory_removed")
+        if c == "isdir" and res == "False":
+            ev.add("release_found_directory_removed")
+        if c == "isdir" and prev in ("scan_all", "scan_ex"):
+            ev.add("request_withdrawn")
+        if c == "mkdir" and prev == "rmdir":
+            ev.add("retry_after_withdrawal")
+        if c == "mkdir" and prev == "create":
+            ev.add("retry_after_directory_removed")
+        if c == "mkdir" and res == "EEXIST":
+            ev.add("mkdir_joined_existing_directory")
+        last[i] = c
+    return ev
+
+
 def evaluate(ctx, cases):
     impl = parallel_map(run_case, cases, workers=WORKERS)
-    reqs = [model_req(c, r["executed"]) for c, r in zip(cases, impl)]
+    reqs = [model_req(c, drop_refused(r)[0]) for c, r in zip(cases, impl)]
     answers = ctx.lean.ask_many(reqs)
+    # the lock bracket of every real command line, as the model has it
+    creqs = [(k, i, cmdline_req(sp, c.get("base", "default"))) for k, c in enumerate(cases)
+             for i, sp in enumerate(c["procs"]) if sp.get("argv") is not None]
+    cans = ctx.lean.ask_many([q for _k, _i, q in creqs])
+    for (k, i, q), ca in zip(creqs, cans):
+        c, r = cases[k], impl[k]
+        held = (r.get("held") or [None] * len(c["procs"]))[i]
+        kinds = (r.get("held_kinds") or [None] * len(c["procs"]))[i]
+        inp = {"argv": c["procs"][i]["argv"], "env_path": c["procs"][i].get("env_path")}
+        if "bad-op" in ca:
+            ctx.disagree("cmd_bracket", inp, None, ca, note="the model does not know this command line")
+            continue
+        if held is not None and kinds is not None:
+            iv = {"kind": (sorted(set(kinds))[0] if len(set(kinds)) == 1 else (None if not kinds else sorted(set(kinds)))),
+                  "stacks": sorted(held)}
+            mv = {"kind": ca["kind"] if ca["stacks"] else None, "stacks": sorted(ca["stacks"])}
+            ctx.hist("cmd_bracket_compared")
+            if iv != mv:
+                ctx.disagree("cmd_bracket", inp, iv, mv, note="lock kind and locked stacks of the command in its body")
+        ch = r.get("stack_changed")
+        if ch and len(c["procs"]) == 1 and any(ch):
+            ctx.hist("cmd_changed_a_stack")
+            if not ca["updates"]:
+                ctx.disagree("cmd_updates", inp, True, False, note="the command changed stack(s) %r; the model says it does not update" % (
+                    [d for d, x in enumerate(ch) if x],))
+            for d, x in enumerate(ch):
+                if x and not (held is not None and d in held and kinds[held.index(d)] == "E"):
+                    ctx.fail("updated_stack_locked", inp, {"changed": ch, "held": held, "kinds": kinds}, ca,
+                             note="the command changed stack %d without holding an exclusive lock on it" % d, finding=None)
     for c, r, a in zip(cases, impl, answers):
         iv, mv = impl_view(r), model_view(a)
         inp = {"procs": c["procs"], "sched": r["executed"], "base": c.get("base", "default")}
+        if c.get("stale"):
+            inp["stale"] = c["stale"]
+            ctx.hist("with_stale_lock")
+            for t in r["trace"]:
+                if t[1] in ("clearLocks", "listLocks"):
+                    ctx.hist("admin=" + t[1])
+        if c.get("signal"):
+            inp["signal"] = c["signal"]
+        for t in r["trace"]:
+            if t[1] == "sigkill":
+                ctx.hist("sigkill=" + t[2])
         if is_path_case(c):
             inp["ndirs"] = c.get("ndirs", 1)
         if c.get("phases"):
@@ -551,6 +823,10 @@ def evaluate(ctx, cases):
             ctx.hist("with_parent_child")
         if any(p.get("tries") for p in c["procs"]):
             ctx.hist("with_retry")
+        if any(t[1] == "signal" for t in r["trace"]):
+            ctx.hist("with_signal=" + c.get("signal", "TERM"))
+            if any(t[1] == "signal" and t[2] == "delivered" for t in r["trace"]):
+                ctx.hist("signal_delivered_in_body")
         names = {p.get("user") for p in c["procs"]}
         if names != {None}:
             ctx.hist("with_login_names")
@@ -562,6 +838,12 @@ def evaluate(ctx, cases):
             ctx.hist("lockDirectoryBase=absolute")
         if any(not p.get("explicit", True) for p in c["procs"]):
             ctx.hist("release_at_exit_only")
+        if any(p.get("ro") for p in c["procs"]):
+            ctx.hist("with_read_only_stack")
+            if any(t[2] == "EACCES" for t in r["trace"]):
+                ctx.hist("mkdir_refused_read_only_stack")
+            if any(p.get("ro") and eff_path(p) for p in c["procs"]):
+                ctx.hist("read_only_and_writable_stack_in_one_path")
         for o in r["outcomes"]:
             ctx.hist("outcome=" + o)
         for o in r.get("mid", []):
@@ -573,6 +855,8 @@ def evaluate(ctx, cases):
             ctx.hist("overlapping")
         for v in r["violations"][:1]:
             ctx.hist("mutex_violation=" + str(v["class"]))
+        for ev in trace_events(r["trace"]):
+            ctx.hist("event=" + ev)
         if iv != mv:
             obs = "trace" if iv["trace"] != mv.get("trace") else "outcomes" if iv["outcomes"] != mv.get("outcomes") else "residue"
             note = ""
@@ -628,111 +912,158 @@ def flat_configs(nmax):
     return cfgs
 
 
-def classification_support(ctx, nmax):
-    """Exploration support (model only, not proof), two sanity checks of what the theorems say against the driver's own
-    executable predicates:
-    (1) exploring only steps that are none of the three races (driver op `racefree`) reaches no state violating Mutex
-        and none violating a clause of the invariant behind C09_classification — all flat configurations up to nmax;
-    (2) no quiescent state has residue (C09_no_residue); and, as information, how many violating states are explained
-        by a race that hit the violating pair itself (the finer attribution the class predicates try first)."""
-    import itertools
+def exploration_support(ctx, nmax):
+    """Exploration support (model only, not proof): the complete reachable state graph of every flat configuration of
+    up to nmax processes — what C09_mutex / C09_no_residue say, re-checked with the driver's own executable predicates
+    (no state violating Mutex, no quiescent state with residue), and the number of states with two holders (readers,
+    or parent and child) as evidence that the protocol does grant shared access."""
     cfgs = flat_configs(nmax)
-    answers = ctx.lean.ask_many([{"m": "c09", "op": "racefree", "max": 3000000,
+    answers = ctx.lean.ask_many([{"m": "c09", "op": "explore", "schedules": False, "max": 3000000,
                                   "procs": [{"kind": p["kind"], "lp": p["lp"], "tries": p["tries"]} for p in procs]}
                                  for procs in cfgs])
-    states = 0
+    states = two = 0
     for procs, a in zip(cfgs, answers):
         if "bad-op" in a:
-            raise common.InfraError("race-free exploration failed: %r" % a)
-        states += a["states"]
-        if a["violated"]:
-            raise common.InfraError("race-free exploration of %r: %r does not hold in every reachable state — the driver's "
-                                    "race predicates and the theorem C09_classification disagree" % (procs, a["violated"]))
-    ctx.hist("racefree_states", states)
-    cfgs2 = []
-    for n in range(2, min(nmax, 3) + 1):
-        for ks in itertools.combinations_with_replacement("ES", n):
-            cfgs2.append([P(k) for k in ks])
-            cfgs2.append([P(k, tries=1) for k in ks])
-        for ks in itertools.product("ES", repeat=n):
-            cfgs2.append([P(k, lp=(0 if i == 1 else None)) for i, k in enumerate(ks)])
-            if n == 3:
-                cfgs2.append([P(k, lp=(0 if i >= 1 else None)) for i, k in enumerate(ks)])
-    if nmax >= 4:
-        for ks in itertools.combinations_with_replacement("ES", 4):
-            cfgs2.append([P(k) for k in ks])
-    answers = ctx.lean.ask_many([{"m": "c09", "op": "explore", "monitors": True, "schedules": False, "max": 3000000,
-                                  "procs": [{"kind": p["kind"], "lp": p["lp"], "tries": p["tries"]} for p in procs]}
-                                 for procs in cfgs2])
-    mstates = viol = elsewhere = 0
-    for procs, a in zip(cfgs2, answers):
-        if "bad-op" in a:
             raise common.InfraError("exploration failed: %r" % a)
-        mstates += a["states"]
-        viol += a["violating"]
-        elsewhere += a["unexplained"]
+        states += a["states"]
+        two += a["two_holders"]
         if not a["full"]:
             ctx.note("exploration: state bound hit for %r" % (procs,))
+        if a["violating"]:
+            raise common.InfraError("model exploration: %d states violate Mutex, configuration %r, e.g. schedule %r — the "
+                                    "driver's predicate and the theorem C09_mutex disagree" % (
+                                        a["violating"], procs, a["violating_example"]))
         if a["residue"]:
             raise common.InfraError("model exploration: %d quiescent states with residue, configuration %r, e.g. schedule %r" % (
                 a["residue"], procs, a["residue_example"]))
-    ctx.note("exploration support (model only, not proof): race-free exploration of %d flat configurations of up to %d processes, "
-             "%d states, none violates Mutex or the invariant of C09_classification; %d further configurations with race "
-             "monitors, %d states, %d violate Mutex, %d of them only through a race that hit a process outside the violating "
-             "pair; no quiescent state with residue" % (len(cfgs), nmax, states, len(cfgs2), mstates, viol, elsewhere))
-    ctx.hist("classification_states", mstates)
+    ctx.note("exploration support (model only, not proof): complete state graphs of %d flat configurations of up to %d "
+             "processes, %d states, none violates Mutex, no quiescent state with residue; %d states with two holders" % (
+                 len(cfgs), nmax, states, two))
+    ctx.hist("explored_support_states", states)
+
+
+def interleave(classes, chunk=40):
+    """round-robin over the case classes, `chunk` cases of each at a time: when the time budget cuts a run short (loaded
+    machine, enlarged budget) every class has had its share, none is starved"""
+    out, pos = [], [0] * len(classes)
+    while any(p < len(c) for p, c in zip(pos, classes)):
+        for k, c in enumerate(classes):
+            out += c[pos[k]:pos[k] + chunk]
+            pos[k] += chunk
+    return out
+
+
+def generated(ctx, sizes, three_limit):
+    """the case classes of one portion of the run: (list of classes, each a list of cases)"""
+    r3, r4, r2, nphase, npath, nsig, ncmd = sizes
+    # the enlarged portion takes the three-process state graphs with their signal transitions
+    three = explore_cases(ctx, three_proc_configs(), "cover3", limit=three_limit, signals=(three_limit is None))
+    return [three,
+            [random_case(ctx.rng, 3) for _ in range(r3)], [random_case(ctx.rng, 4) for _ in range(r4)],
+            [random_case(ctx.rng, 2) for _ in range(r2)], [phase_case(ctx.rng) for _ in range(nphase)],
+            [path_case(ctx.rng) for _ in range(npath)], [signal_case(ctx.rng) for _ in range(nsig)],
+            [admin_case(ctx.rng) for _ in range(max(20, nsig // 3))],
+            cmd_cases(ctx.rng, ncmd)]
 
 
 def run(ctx):
+    # 1. the ordinary quick portion, first and completely — also when the case budget is enlarged (thorough tier, or the
+    #    quick tier after a mirrored function changed: `ctx.escalated`), so that every case class and every distribution
+    #    floor below is reached before the time limit can bite
     cases = corpus_cases()
     ctx.hist("corpus", len(cases))
     evaluate(ctx, cases)
+    cmd_table_check(ctx)
     evaluate(ctx, name_cases())
     # all distinct interleavings of two processes (transition cover of the model's state graph)
-    two = explore_cases(ctx, two_proc_configs(), "cover2")
+    # — the state graph with the signal transitions (a signal for a process in its body) as well
+    two = explore_cases(ctx, two_proc_configs(), "cover2", signals=True)
     ctx.hist("cover2_schedules", len(two))
-    for k in range(0, len(two), 600):
-        if ctx.out_of_time():
-            ctx.note("time budget reached inside the two-process cover")
-            break
-        evaluate(ctx, two[k:k + 600])
-    # three processes: every distinct schedule in the thorough tier, a sample of the cover in the quick one
-    three = explore_cases(ctx, three_proc_configs(), "cover3", limit=ctx.n(60, None))
-    ctx.hist("cover3_schedules", len(three))
-    for k in range(0, len(three), 600):
-        if ctx.out_of_time():
-            ctx.note("time budget reached inside the three-process cover")
-            break
-        evaluate(ctx, three[k:k + 600])
-    nrand3, nrand4, nphase = ctx.n(500, 4000), ctx.n(150, 6000), ctx.n(300, 3000)
-    batch = [random_case(ctx.rng, 3) for _ in range(nrand3)] + [random_case(ctx.rng, 4) for _ in range(nrand4)] + \
-            [random_case(ctx.rng, 2) for _ in range(ctx.n(100, 1000))] + [phase_case(ctx.rng) for _ in range(nphase)] + \
-            [path_case(ctx.rng) for _ in range(ctx.n(400, 6000))] + cmd_cases(ctx.rng, ctx.n(120, 1500))
-    for k in range(0, len(batch), 600):
-        if ctx.out_of_time():
-            ctx.note("time budget reached inside the random schedules")
-            break
-        evaluate(ctx, batch[k:k + 600])
-    classification_support(ctx, ctx.n(3, 4))
+    quick = interleave([two] + generated(ctx, (500, 150, 100, 300, 400, 80, 120), 60))
+    for k in range(0, len(quick), 600):
+        evaluate(ctx, quick[k:k + 600])          # no time check: this portion always runs to its end
+    # 2. the enlarged budget: every distinct three-process schedule, many more generated cases — class by class in
+    #    rotation, as far as the time limit allows
+    if ctx.n(0, 1):
+        more = interleave(generated(ctx, (4000, 6000, 1000, 3000, 6000, 1500, 1500), None), chunk=75)
+        ctx.hist("enlarged_portion_cases", len(more))
+        for k in range(0, len(more), 600):
+            if ctx.out_of_time():
+                ctx.note("time budget reached inside the enlarged portion after %d of %d cases (classes in rotation)" % (k, len(more)))
+                break
+            evaluate(ctx, more[k:k + 600])
+    ctx.hist("cover3_schedules", ctx.histogram.get("src=cover3", 0))
+    exploration_support(ctx, 4 if ctx.tier == "thorough" else 3)
     # report the most telling failures first: outside every known class, then the shortest schedules
     ctx.failures.sort(key=lambda f: (f["finding_class"] is not None, len(f["input"]["sched"])))
     if ctx.evaluations < 200 or ctx.histogram.get("overlapping", 0) < 0.3 * ctx.evaluations:
         raise common.InfraError("degenerate distribution: %d cases, %d with overlapping lockers" % (
             ctx.evaluations, ctx.histogram.get("overlapping", 0)))
-    if not any(k.startswith("mutex_violation=") for k in ctx.histogram):
-        raise common.InfraError("no schedule of this run violated exclusion on the implementation: the known races were not exercised")
+    if not ctx.histogram.get("mkdir_refused_read_only_stack") or not ctx.histogram.get("read_only_and_writable_stack_in_one_path"):
+        raise common.InfraError("no case of this run had a stack the locker cannot write to")
+    if not ctx.histogram.get("admin=clearLocks") or not ctx.histogram.get("admin=listLocks"):
+        raise common.InfraError("no case of this run had a stale lock cleared by `eups admin clearLocks`")
+    if not ctx.histogram.get("sigkill=killed"):
+        raise common.InfraError("no locker was killed outright in this run")
+    if not ctx.histogram.get("signal_delivered_in_body"):
+        raise common.InfraError("no signal was delivered to a command body in this run")
+    for ev in ("request_withdrawn", "retry_after_withdrawal", "create_found_directory_removed", "retry_after_directory_removed",
+               "rmdir_refused_directory_in_use", "mkdir_joined_existing_directory"):
+        if not ctx.histogram.get("event=" + ev):
+            raise common.InfraError("no schedule of this run took the real code through '%s': the race-handling paths of the "
+                                    "lock protocol were not exercised" % ev)
+
+
+def replay_cmd(ctx, c):
+    """replay of a command-table entry ({"command": name}) or of one command line's lock bracket ({"argv", "env_path"})"""
+    if "command" in c:
+        def real_table():
+            common.import_eups()
+            import eups.cmd
+            import eups.lock as lock
+            return {k: {lock.LOCK_EX: "E", lock.LOCK_SH: "S", None: None}.get(v[1], "?") for k, v in eups.cmd._cmdLookup.items()}
+        res = common.in_child(real_table)
+        real = res[1] if res[0] == "ok" else {}
+        model = {e["name"]: e for e in ctx.lean.ask({"m": "c09", "op": "cmdtable"})}
+        nm = c["command"]
+        iv = real.get(nm, "not registered")
+        mv = model[nm]["lock"] if nm in model else "not in the model"
+        return {"input": c, "impl_output": iv, "model_output": mv, "agree": iv == mv, "violations": [], "fails": []}
+    env = list(c.get("env_path") or [0])
+    nd = max([3] + [d + 1 for d in env])
+    sp = cmd_proc(0, list(c["argv"]), env)
+    case = {"procs": [sp], "sched": [], "ndirs": nd, "drain": True}
+    r = common.in_child(run_case, case)
+    r = r[1] if r[0] == "ok" else {"executed": [], "trace": [], "outcomes": [repr(r)], "residue": [], "violations": [], "error": repr(r)}
+    ca = ctx.lean.ask(cmdline_req(sp, "default"))
+    held, kinds = (r.get("held") or [None])[0], (r.get("held_kinds") or [None])[0]
+    iv = None
+    if held is not None and kinds is not None:
+        iv = {"kind": (sorted(set(kinds))[0] if len(set(kinds)) == 1 else (None if not kinds else sorted(set(kinds)))),
+              "stacks": sorted(held), "changed": r.get("stack_changed")}
+    mv = {"kind": ca.get("kind") if ca.get("stacks") else None, "stacks": sorted(ca.get("stacks", [])), "updates": ca.get("updates")}
+    agree = iv is not None and iv["kind"] == mv["kind"] and iv["stacks"] == mv["stacks"] and \
+        not (any(iv["changed"] or []) and not mv["updates"])
+    fails = [{"clause": cl, "class": k, "detail": d} for cl, k, d in oracle(case, r)]
+    return {"input": c, "impl_output": iv, "model_output": mv, "agree": agree, "violations": r["violations"], "fails": fails}
 
 
 def replay(ctx, rp):
     c = rp.get("input") or rp          # a replay file, or a corpus witness
+    if "procs" not in c:
+        return replay_cmd(ctx, c)
     case = {"procs": c["procs"], "sched": c["sched"], "base": c.get("base", "default"), "drain": True}
+    if c.get("signal"):
+        case["signal"] = c["signal"]
+    if c.get("stale"):
+        case["stale"] = c["stale"]
     if "ndirs" in c:
         case["ndirs"] = c["ndirs"]
     if c.get("phases"):
         case["phases"] = c["phases"]
     r = common.in_child(run_case, case)
     r = r[1] if r[0] == "ok" else {"executed": c["sched"], "trace": [], "outcomes": [repr(r)], "residue": [], "violations": [], "error": repr(r)}
-    a = ctx.lean.ask(model_req(case, r["executed"]))
+    a = ctx.lean.ask(model_req(case, drop_refused(r)[0]))
     iv, mv = impl_view(r), model_view(a)
     fails = [{"clause": cl, "class": k, "detail": d} for cl, k, d in oracle(case, r)]
     return {"input": c, "impl_output": iv, "model_output": mv, "agree": iv == mv, "violations": r["violations"], "fails": fails}
